@@ -136,7 +136,13 @@ def run_cases(modname, variant, cases, timeout_case=120, nproc=None, extra_env=N
                     p.wait()
                     done, inflight = harvest(p, info, True)
                     if inflight is not None:
-                        results[inflight] = {"timeout": timeout_case}
+                        note = None
+                        try:
+                            with open(os.path.join(info['wd'], 'inflight.txt')) as f:
+                                note = f.read(4000)
+                        except Exception:
+                            pass
+                        results[inflight] = {"timeout": timeout_case, "inflight": note}
                     rest = [i for i in info['idxs'] if results[i] is None]
                     del running[p]
                     if rest:
@@ -152,7 +158,13 @@ def run_cases(modname, variant, cases, timeout_case=120, nproc=None, extra_env=N
                 except Exception:
                     pass
                 if inflight is not None and results[inflight] is None:
-                    results[inflight] = {"crash": {"returncode": rc, "signal": -rc if rc < 0 else None, "stderr": tail}}
+                    note = None
+                    try:
+                        with open(os.path.join(info['wd'], 'inflight.txt')) as f:
+                            note = f.read(4000)
+                    except Exception:
+                        pass
+                    results[inflight] = {"crash": {"returncode": rc, "signal": -rc if rc < 0 else None, "stderr": tail, "inflight": note}}
                 elif inflight is None and rc != 0:
                     # died outside any case (import failure etc.)
                     for i in info['idxs']:
